@@ -716,6 +716,35 @@ def shape_auto(rng):
     return Prog(adts, [Trait("Send", 0, ("auto",))], im, "auto")
 
 
+def shape_co_scc(rng):
+    """a root outside a coinductive strongly connected component that is not a simple ring
+    (some member has two successors inside the component) — through explicit impls of a
+    #[coinductive] trait or through the fields of structs under an #[auto] trait (F7q)"""
+    n = rng.randint(3, 5)
+    for _ in range(50):
+        succ = {i: sorted(rng.sample(range(1, n + 1), rng.choice([1, 1, 2]))) for i in range(1, n + 1)}
+        # strongly connected?
+        def reach(a):
+            seen, todo = set(), [a]
+            while todo:
+                x = todo.pop()
+                for y in succ[x]:
+                    if y not in seen:
+                        seen.add(y)
+                        todo.append(y)
+            return seen
+        if all(reach(i) == set(range(1, n + 1)) for i in range(1, n + 1)) and any(len(v) > 1 for v in succ.values()):
+            break
+    succ[0] = [rng.randint(1, n)]
+    S = lambda i: adt("S%d" % i)
+    if rng.random() < 0.5:
+        adts = [Adt("S%d" % i, 0, "struct", [[S(j) for j in succ[i]]]) for i in range(n + 1)]
+        return Prog(adts, [Trait("Sync", 0, ("auto",))], [], "co-scc-auto")
+    adts = [Adt("S%d" % i) for i in range(n + 1)]
+    im = [Impl(0, ("C0", (S(i),)), [("C0", (S(j),)) for j in succ[i]]) for i in range(n + 1)]
+    return Prog(adts, [Trait("C0", 0, ("coinductive",))], im, "co-scc")
+
+
 def _rand_ty(rng, adts, nvars, depth):
     choices = []
     if nvars:
@@ -735,9 +764,12 @@ def shape_random(rng):
         adts.append(Adt("P", 2))
     ntr = rng.randint(1, 3)
     traits = []
+    pure = set()      # inductive traits that never depend on a coinductive one (directly or not)
     for j in range(ntr):
         fl = ("coinductive",) if rng.random() < 0.25 else ()
         traits.append(Trait("Tr%d" % j, 1 if rng.random() < 0.25 else 0, fl))
+        if not fl and rng.random() < 0.5:
+            pure.add("Tr%d" % j)
     impls = []
     for _ in range(rng.randint(2, 6)):
         t = rng.choice(traits)
@@ -754,16 +786,38 @@ def shape_random(rng):
             args = tuple(_rand_ty(rng, adts, 0, 2) for _ in range(1 + t.nextra))
         wcs = []
         for _ in range(rng.choice([0, 1, 1, 2])):
-            # stratification: a coinductive head may only depend on coinductive traits
-            cands = [u for u in traits if (u.coinductive or not t.coinductive)]
+            # no cycle through both kinds of trait: a coinductive head may depend on coinductive
+            # traits and on *pure* inductive ones; a pure trait only on pure ones
+            if t.coinductive:
+                cands = [u for u in traits if u.coinductive or u.name in pure]
+            elif t.name in pure:
+                cands = [u for u in traits if u.name in pure]
+            else:
+                cands = list(traits)
             u = rng.choice(cands)
             wcs.append((u.name, tuple(_rand_ty(rng, adts, nv, 2) for _ in range(1 + u.nextra))))
         impls.append(Impl(nv, (t.name, args), wcs))
     return Prog(adts, traits, impls, "random")
 
 
+def shape_auto_mixed(rng):
+    """explicit auto-trait impls whose where-clauses use an ordinary (inductive) trait, and an
+    ordinary trait that depends on the auto trait: dependencies through both kinds, no cycle"""
+    adts = [Adt("Z"), Adt("N"), Adt("W", 1, "struct", [[var(0)]]), Adt("Q", 1, "struct", [[adt("N")]]),
+            Adt("R", 0, "struct", [[adt("Q", adt("Z")), adt("W", adt("Z"))]])]
+    tr = [Trait("Send", 0, ("auto",)), Trait("Foo"), Trait("Bar")]
+    im = [Impl(0, ("Send", (adt("N"),)), [], positive=False),
+          Impl(1, ("Send", (adt("Q", var(0)),)), [("Foo", (var(0),))]),
+          Impl(0, ("Foo", (adt("Z"),))),
+          Impl(1, ("Foo", (adt("W", var(0)),)), [("Foo", (var(0),))]),
+          Impl(1, ("Bar", (var(0),)), [("Send", (var(0),))])]
+    if rng.random() < 0.5:
+        im.append(Impl(0, ("Foo", (adt("N"),))))
+    return Prog(adts, tr, im, "auto-mixed")
+
+
 SHAPES = [shape_diamond, shape_ind_cycle, shape_mutual, shape_chain, shape_nested_chain, shape_poly_rec,
-          shape_overlap, shape_co_cycle, shape_growing, shape_auto, shape_random, shape_random, shape_random]
+          shape_overlap, shape_co_cycle, shape_co_scc, shape_growing, shape_auto, shape_auto_mixed, shape_random, shape_random, shape_random]
 
 
 def gen_program(rng, shapes=None) -> Prog:
@@ -975,6 +1029,12 @@ def corpus():
     # F7 (auto cycle)
     p = Prog([Adt("A", 0, "struct", [[adt("B")]]), Adt("B", 0, "struct", [[adt("A")]])], [Trait("Send", 0, ("auto",))], [], "corpus-F7")
     out.append((p, [("atom", ("Send", (adt("A"),))), ("atom", ("Send", (adt("B"),)))]))
+    # F7q (nested coinductive SCC, root outside)
+    S = lambda i: adt("S%d" % i)
+    p = Prog([Adt("S%d" % i) for i in range(4)], [Trait("C0", 0, ("coinductive",))],
+             [Impl(0, ("C0", (S(0),)), [("C0", (S(1),))]), Impl(0, ("C0", (S(1),)), [("C0", (S(3),)), ("C0", (S(2),))]),
+              Impl(0, ("C0", (S(2),)), [("C0", (S(1),)), ("C0", (S(3),))]), Impl(0, ("C0", (S(3),)), [("C0", (S(2),))])], "corpus-F7q")
+    out.append((p, [("atom", ("C0", (S(0),))), ("atom", ("C0", (S(1),)))]))
     return out
 
 
